@@ -132,9 +132,14 @@ func (r *rwRT) ruleFilePasses() {
 		}
 		reset := map[string]bool{}
 		collectAt := -1
+		var carried []string
 		for i, e := range o.St.Events {
 			if e.Kind == "store" && strings.HasPrefix(e.Target, "r.") && (collectAt < 0) {
 				reset[strings.TrimPrefix(e.Target, "r.")] = true
+				// the new value must not be derived from what the previous file left in the field
+				if strings.Contains(epochRe.ReplaceAllString(e.Args[0].String(), ""), "⟨"+e.Target) {
+					carried = append(carried, strings.TrimPrefix(e.Target, "r.")+" = "+canon(e.Args[0]))
+				}
 			}
 			if e.Kind == "call" && e.Fn != nil && e.Fn.Name() == "collectYieldFunc" && collectAt < 0 {
 				collectAt = i
@@ -146,6 +151,9 @@ func (r *rwRT) ruleFilePasses() {
 				missing = append(missing, f)
 			}
 		}
+		c.check(len(carried) == 0, "RW.FILEPASSES", "per-file state does not carry over", pos,
+			"every per-file field is re-initialised with a value that does not depend on its previous content",
+			"per-file field re-initialised from its own previous value ("+strings.Join(carried, "; ")+"): whether it is nil or empty for this file depends on the files processed before")
 		c.check(len(missing) == 0, "RW.FILEPASSES", "per-file state reset before the first pass", pos,
 			"import names, generator sets and collected comments are re-initialised for every file before any pass uses them",
 			"per-file field(s) not re-initialised before the first pass: "+strings.Join(missing, ", ")+" (state of the previous file leaks into this one)")
@@ -179,4 +187,69 @@ func reachesFn(fn interface{ String() string }, target string, depth int) bool {
 		}
 	}
 	return false
+}
+
+// ruleAllFiles: every file that uses the API is rewritten, whatever else is processed in the same invocation.
+func (r *rwRT) ruleAllFiles() {
+	c := r.c
+	c.min("RW.ALLFILES", 2)
+	fn := r.method("rewriter", "rewriteAllFiles")
+	c.fn(relName(fn))
+	pos := r.w.FnPos(fn)
+	in := r.interp(rwConfig{root: fn, boundaries: map[string]bool{"rewriteAllFiles": false}})
+	in.OnCall = wrapOnCall(in.OnCall, func(cc *CallCtx) []Answer {
+		if cc.Fn != nil && cc.Fn.Name() == "LookupPackage" {
+			return []Answer{{Ret: []AV{Sym{Name: "coPkg", NN: true}}, NoEvent: true}}
+		}
+		return nil
+	})
+	outs := in.Run(nil, fn, []AV{Sym{Name: "r", NN: true}, Sym{Name: "printer", NN: true}}, nil)
+	var visit AV
+	var base *State
+	for _, o := range outs {
+		for _, e := range o.St.Events {
+			if e.Kind == "call" && e.Fn != nil && e.Fn.Name() == "VisitAllFiles" && len(e.Args) == 2 {
+				visit, base = e.Args[1], o.St
+			}
+		}
+	}
+	if visit == nil {
+		c.und("RW.ALLFILES", "per-file decision", pos, "rewriteAllFiles does not visit files through VisitAllFiles")
+		return
+	}
+	for _, uses := range []bool{true, false} {
+		uses := uses
+		in.OnCall = wrapOnCall(in.OnCall, func(cc *CallCtx) []Answer {
+			if cc.Fn != nil && cc.Fn.Name() == "Uses" {
+				return []Answer{{Ret: []AV{mkBool(uses)}, NoEvent: true}}
+			}
+			return nil
+		})
+		res := in.Apply(base, visit, []AV{Sym{Name: "f", NN: true}})
+		r.account(in)
+		rewritten, skipped := 0, 0
+		example := ""
+		for _, o := range res {
+			if o.Panicked {
+				continue
+			}
+			found := false
+			for _, e := range o.St.Events[len(base.Events):] {
+				if e.Kind == "call" && e.Fn != nil && e.Fn.Name() == "rewriteFile" {
+					found = true
+				}
+			}
+			if found {
+				rewritten++
+			} else {
+				skipped++
+				example = pathSummary(o)
+			}
+		}
+		if uses {
+			c.check(skipped == 0 && rewritten > 0, "RW.ALLFILES", "file using the API", pos, "is rewritten on every path: the decision depends on the file alone", "a file that uses the API is skipped on some path — the decision depends on something other than the file itself (other files or packages of the invocation): "+example)
+		} else {
+			c.check(rewritten == 0, "RW.ALLFILES", "file not using the API", pos, "is left alone", "a file that does not use the API is rewritten")
+		}
+	}
 }
